@@ -3,4 +3,5 @@
 
 pub mod engine;
 pub mod fixtures;
+pub mod fuzz;
 pub mod props;
